@@ -33,6 +33,6 @@ PROPS = {
  'C17': dict(level='proof', sections=[], result_ops=[], monitors=[], probe=True, uses_generated=True),
  'C18': dict(level='proof', sections=['vpn/plan/00', 'vpn/subscription/00', 'vpn/session/00', 'vpn/plan/10', 'vpn/subscription/10', 'vpn/session/10', 'vpn/subscription/20', 'vpn/subscription/30'],
              result_ops=['tx:planCreate', 'tx:nodeSubscribe', 'tx:planSubscribe', 'tx:sessStart'], monitors=['counters']),
- 'C19': dict(level='proof', sections=[], result_ops=[], monitors=[], probe=True, uses_generated=True,
+ 'C19': dict(level='proof', sections=['param'], result_ops=[], monitors=[], probe=True, uses_generated=True,
              partial='JSON half reduces to the regenerated enum tables: status_json_roundtrip is FALSE on this tree (known finding F7, witness theorem status_json_roundtrip_fails)'),
 }
